@@ -4,8 +4,8 @@ import sqlite3
 
 SCHEMA = [
     'CREATE TABLE "t1" ("id" INTEGER PRIMARY KEY, "a" INTEGER, "b" INTEGER, "c" TEXT)',
-    'CREATE TABLE "t2" ("id" INTEGER PRIMARY KEY, "t1_id" INTEGER, "x" INTEGER, "y" TEXT)',
-    'CREATE TABLE "t3" ("id" INTEGER PRIMARY KEY, "t1_id" INTEGER, "v" INTEGER)',
+    'CREATE TABLE "t2" ("k" INTEGER PRIMARY KEY, "t1_id" INTEGER, "x" INTEGER, "y" TEXT)',
+    'CREATE TABLE "t3" ("k3" INTEGER PRIMARY KEY, "r" INTEGER, "v" INTEGER)',
 ]
 T1 = [(1, 1, 10, "x1"), (2, 2, 20, "x2"), (3, 2, None, None), (4, None, 10, "xy"), (5, 3, 30, "z"), (6, 3, 30, "z"), (7, 0, 0, "")]
 T2 = [(1, 1, 5, "p"), (2, 1, 7, "q"), (3, 2, None, "r"), (4, 3, 5, None), (5, None, 9, "s"), (6, 5, 1, "t")]
